@@ -130,7 +130,7 @@ def enum_alphabet(tier):
         yield {'p': p, 'good': True}
 
 
-STEPS = [np.pi / 2, np.pi, 1.5 * np.pi, 1.9 * np.pi]
+STEPS = [np.pi / 2, np.pi, 1.5 * np.pi, 1.9 * np.pi, 0, 0.0]     # a zero threshold is valid: every change of phase is a wrap
 
 
 def synth_strategy(max_n):
